@@ -1,7 +1,11 @@
 /* Engine `bindings` (C16): drives src/bindings.c through the public pen and terminal APIs only.
  *
  * Operations (one per line):
- *   new pen|term
+ *   new pen|term|twin|win             twin: a terminal on which root windows come and go (window.c is a client of the terminal's
+ *                                           bindings: it binds three handlers and unbinds them by the identifiers it kept);
+ *                                           handlers are bound on the terminal.
+ *                                     win:  a terminal with a root window; handlers are bound on the ROOT WINDOW
+ *                                           (tickit_window_bind_event), events reach it through the terminal and window.c
  *   beh <h> <n> <ret> <action>...     behaviour of handler h at its n-th invocation (0-based)
  *        actions: b:<ev>:<flags>:<h>  bind handler h to event ev with TickitBindFlags flags (new slot)
  *                 u:<slot>            unbind the id recorded in <slot> (nothing if the slot does not exist yet)
@@ -13,13 +17,21 @@
  *   unbindid <id>
  *   emit <ev>                         pen: 1 = ON_CHANGE (attribute change)
  *                                     term: 1 = ON_RESIZE (set_size), 2 = ON_KEY (emit_key or input_push_bytes), 3 = ON_MOUSE (emit_mouse)
- *   destroy                           unref to zero
+ *                                     win: 1 = ON_GEOMCHANGE (set_geometry), 2 = ON_EXPOSE (expose + flush), 3 = ON_FOCUS (take_focus),
+ *                                          4 = ON_KEY (tickit_term_emit_key / input_push_bytes on the terminal -> on_term_key -> _handle_key),
+ *                                          5 = ON_MOUSE (tickit_term_emit_mouse -> on_term_mouse -> _handle_mouse)
+ *   destroy                           unref to zero (twin: the root window is released first; win: the root window, then the terminal)
+ *   rootclose                         (win) tickit_window_close of the owner: a closed window keeps its bindings until it is destroyed
+ *   rootnew | rootref | rootunref | rootclose    (twin) tickit_window_new_root(tt) [takes three slots the harness knows no identifier of],
+ *                                     tickit_window_ref / _unref / _close of that root window; no handler of the user may be called by these
  *   pen <code>                        (pen owner) an operation on the pen that may emit ON_CHANGE, also as action p:<code>:
  *        b0 | b1      tickit_pen_set_bool_attr(pen, BOLD, v)                (changed(): deferred inside a frozen region)
  *        c<n>         tickit_pen_set_colour_attr(pen, FG, n)                 (emits at once)
  *        k<t><ow>     tickit_pen_copy(pen, template t, overwrite ow)          (freeze … thaw)
  *        a<t>         tickit_pen_copy_attr(pen, template t, FG)              (freeze, set index [emits], RGB8, thaw)
  *        d<n> | D<n>  tickit_pen_set_colour_attr_desc(pen, FG, "n" | "n#112233")
+ *        h<n>         …_desc(pen, FG, "hi-n")   (rejected without effect for n > 7)
+ *        n<i>         …_desc(pen, FG, name)     i: 0 "red", 1 "hi-red", 2 "grey", 3 "hi-grey", 4 an unknown name (rejected), 5 "blue#112233"
  *      templates: 0 {bold=1}  1 {bold=0}  2 {fg=3 #102030}  3 {bold=1, fg=2}  4 {fg=3}
  *
  * Observation: the call log of the operation.
@@ -46,7 +58,10 @@ struct action { int kind, a, b, c; char code[8]; };
 struct beh { int defined, ret, nact; struct action act[MAXACT]; };
 struct slot { int h, id, slot; };
 
-static int owner_kind;  /* 0 none, 1 pen, 2 term */
+static int owner_kind;  /* 0 none, 1 pen, 2 term, 3 twin (term with root windows coming and going), 4 win (root window) */
+static TickitWindow *root;   /* twin: the current root window (if any); win: the owner */
+static int root_refs;
+static int geom_counter;
 static TickitPen  *pen;
 static TickitTerm *tt;
 static int dead;
@@ -66,7 +81,7 @@ static void out_func(TickitTerm *t, const char *bytes, size_t len, void *user) {
 
 static int handler(void *owner, TickitEventFlags flags, void *info, void *data);
 
-static void *the_owner(void) { return owner_kind == 1 ? (void *)pen : (void *)tt; }
+static void *the_owner(void) { return owner_kind == 1 ? (void *)pen : owner_kind == 4 ? (void *)root : (void *)tt; }
 
 static void do_bind(int ev, int flags, int h)
 {
@@ -77,6 +92,8 @@ static void do_bind(int ev, int flags, int h)
   int id;
   if(owner_kind == 1)
     id = tickit_pen_bind_event(pen, (TickitPenEvent)ev, (TickitBindFlags)flags, (TickitPenEventFn *)handler, s);
+  else if(owner_kind == 4)
+    id = tickit_window_bind_event(root, (TickitWindowEvent)ev, (TickitBindFlags)flags, (TickitWindowEventFn *)handler, s);
   else
     id = tickit_term_bind_event(tt, (TickitTermEvent)ev, (TickitBindFlags)flags, (TickitTermEventFn *)handler, s);
   s->id = id;
@@ -85,8 +102,9 @@ static void do_bind(int ev, int flags, int h)
 
 static void do_unbind_id(int id)
 {
-  if(owner_kind == 1) tickit_pen_unbind_event_id(pen, id);
-  else                tickit_term_unbind_event_id(tt, id);
+  if(owner_kind == 1)      tickit_pen_unbind_event_id(pen, id);
+  else if(owner_kind == 4) tickit_window_unbind_event_id(root, id);
+  else                     tickit_term_unbind_event_id(tt, id);
 }
 
 static void do_unbind_slot(int slot)
@@ -119,6 +137,12 @@ static void do_pen(const char *code)
     case 'a': { int t = code[1] - '0'; if(t >= 0 && t < NTMPL) tickit_pen_copy_attr(pen, tmpl[t], TICKIT_PEN_FG); break; }
     case 'd': { char d[16]; snprintf(d, sizeof d, "%d", n); tickit_pen_set_colour_attr_desc(pen, TICKIT_PEN_FG, d); break; }
     case 'D': { char d[24]; snprintf(d, sizeof d, "%d#112233", n); tickit_pen_set_colour_attr_desc(pen, TICKIT_PEN_FG, d); break; }
+    case 'h': { char d[24]; snprintf(d, sizeof d, "hi-%d", n); tickit_pen_set_colour_attr_desc(pen, TICKIT_PEN_FG, d); break; }
+    case 'n': {
+      static const char *const names[] = { "red", "hi-red", "grey", "hi-grey", "nosuchcolour", "blue#112233" };
+      if(n >= 0 && n < 6) tickit_pen_set_colour_attr_desc(pen, TICKIT_PEN_FG, names[n]);
+      break;
+    }
   }
   emit_depth--;
   if(!emit_depth && dropped) gone = 1;
@@ -130,6 +154,31 @@ static void do_emit_inner(int ev)
   if(owner_kind == 1) {
     if(ev != 1) return;
     tickit_pen_set_colour_attr(pen, TICKIT_PEN_FG, 7);   /* emits at once, frozen or not */
+  }
+  else if(owner_kind == 4) {
+    if(ev == 1) {
+      /* always a geometry different from the current one, inside the terminal */
+      geom_counter++;
+      tickit_window_set_geometry(root, (TickitRect){ .top = 0, .left = 0, .lines = 10 + geom_counter % 5, .cols = 30 + geom_counter % 3 });
+    }
+    else if(ev == 2) {
+      tickit_window_expose(root, NULL);
+      tickit_window_flush(root);
+    }
+    else if(ev == 3)
+      tickit_window_take_focus(root);
+    else if(ev == 4) {
+      if(emit_counter % 3 == 0)
+        tickit_term_input_push_bytes(tt, "a", 1);
+      else {
+        TickitKeyEventInfo info = { .type = TICKIT_KEYEV_TEXT, .mod = 0, .str = "a" };
+        tickit_term_emit_key(tt, &info);
+      }
+    }
+    else if(ev == 5) {
+      TickitMouseEventInfo info = { .type = TICKIT_MOUSEEV_PRESS, .button = 1, .mod = 0, .line = 2, .col = 3 };
+      tickit_term_emit_mouse(tt, &info);
+    }
   }
   else {
     if(ev == 1) {
@@ -159,7 +208,41 @@ static void do_destroy(void)
   dead = 1;
   if(!emit_depth) gone = 1;
   if(owner_kind == 1) tickit_pen_unref(pen);
-  else                tickit_term_unref(tt);
+  else if(owner_kind == 4) {
+    /* the root window goes (its own bindings are notified), taking its three terminal bindings with it; then the terminal */
+    tickit_window_unref(root); root = NULL;
+    tickit_term_unref(tt);
+  }
+  else {
+    /* twin: whatever root window is left is released first */
+    while(root_refs > 0) { tickit_window_unref(root); root_refs--; }
+    root = NULL;
+    tickit_term_unref(tt);
+  }
+}
+
+/* twin: a root window on the terminal comes, is referenced, closed, released */
+static void do_root(const char *op)
+{
+  if(strcmp(op, "rootnew") == 0) {
+    if(root || nslots + 3 > MAXSLOT) return;
+    root = tickit_window_new_root(tt);
+    if(!root) { obs(" !root"); return; }
+    root_refs = 1;
+    /* window.c bound three handlers on the terminal: three slots whose identifier the harness does not know */
+    for(int i = 0; i < 3; i++) {
+      struct slot *s = &slots[nslots];
+      s->h = -1; s->id = 0; s->slot = nslots;
+      nslots++;
+    }
+  }
+  else if(!root) return;
+  else if(strcmp(op, "rootref") == 0)   { tickit_window_ref(root); root_refs++; }
+  else if(strcmp(op, "rootclose") == 0) tickit_window_close(root);
+  else if(strcmp(op, "rootunref") == 0) {
+    tickit_window_unref(root);
+    if(--root_refs == 0) root = NULL;
+  }
 }
 
 static int handler(void *owner, TickitEventFlags flags, void *info, void *data)
@@ -202,7 +285,7 @@ static int handler(void *owner, TickitEventFlags flags, void *info, void *data)
 
 static void engine_begin(void)
 {
-  owner_kind = 0; pen = NULL; tt = NULL; dead = 0; nslots = 0; emit_counter = 0; emit_depth = 0; dropped = 0; gone = 0;
+  owner_kind = 0; pen = NULL; tt = NULL; root = NULL; root_refs = 0; geom_counter = 0; dead = 0; nslots = 0; emit_counter = 0; emit_depth = 0; dropped = 0; gone = 0;
   handler_depth = 0;
   memset(behs, 0, sizeof behs);
   memset(invcount, 0, sizeof invcount);
@@ -243,10 +326,15 @@ static void engine_op(int argc, char **argv)
       }
     }
     else {
-      owner_kind = 2;
+      owner_kind = strcmp(argv[1], "twin") == 0 ? 3 : strcmp(argv[1], "win") == 0 ? 4 : 2;
       tt = tickit_term_build(&(struct TickitTermBuilder){ .termtype = "xterm", .output_func = out_func });
       if(!tt) { owner_kind = 0; obs("no-term"); return; }
       tickit_term_get_size(tt, &term_lines, &term_cols);
+      if(owner_kind == 4) {
+        root = tickit_window_new_root(tt);
+        if(!root) { owner_kind = 0; obs("no-root"); return; }
+        tickit_window_flush(root);   /* the initial whole-window damage is dealt with before anything is bound */
+      }
     }
     obs("ok");
     return;
@@ -258,7 +346,9 @@ static void engine_op(int argc, char **argv)
     struct beh *b = &behs[h][n];
     b->defined = 1; b->ret = atoi(argv[3]); b->nact = 0;
     for(int i = 4; i < argc; i++)
-      if(!parse_action(argv[i], &b->act[b->nact++])) { b->defined = 0; obs("bad-op"); return; }
+      if(!parse_action(argv[i], &b->act[b->nact++]) ||
+         /* with a root window about, the terminal's (the window's) life does not end with the handlers' reference: not driven */
+         (owner_kind >= 3 && b->act[b->nact - 1].kind == A_DESTROY)) { b->defined = 0; obs("bad-op"); return; }
     obs("ok");
     return;
   }
@@ -270,5 +360,7 @@ static void engine_op(int argc, char **argv)
   else if(strcmp(op, "emit") == 0 && argc == 2)     do_emit(atoi(argv[1]));
   else if(strcmp(op, "destroy") == 0 && argc == 1)  do_destroy();
   else if(strcmp(op, "pen") == 0 && argc == 2)      do_pen(argv[1]);
+  else if(owner_kind == 3 && argc == 1 && strncmp(op, "root", 4) == 0) do_root(op);
+  else if(owner_kind == 4 && argc == 1 && strcmp(op, "rootclose") == 0) tickit_window_close(root);   /* the owner window is closed (its bindings stay) */
   else { h_olen = 0; obs("bad-op"); }
 }
